@@ -53,6 +53,8 @@ class World:
         exec(S.source(self.scn), self.ns)
         self.root = self.ns[self.scn["root"]]
         self.classes = {n: self.ns[n] for n in self.scn["classes"]}
+        for c in self.classes.values():            # bootstrap now: class-level state is observed by some checks
+            getattr(c, "__spec_class__", None)
         self.by_type = {c: n for n, c in self.classes.items()}
         self.dnc_attrs = {n: {a["name"] for a in c["attrs"] if a["dnc"]} for n, c in self.scn["classes"].items()}
         self.props = {n: [p["name"] for p in c["props"]] for n, c in self.scn["classes"].items()}
